@@ -152,6 +152,32 @@ func (i *importer) importComments(dbcComments []*dbc.Comment) {
 	}
 }
 
+// getAttributeDefaultInt returns the numeric default value of an attribute as int.
+// The parser stores the number in the field that matches the way it is written
+// in the file (integer, hex or decimal), not the type of the attribute.
+func (i *importer) getAttributeDefaultInt(dbcAttDef *dbc.AttributeDefault) int {
+	switch dbcAttDef.Type {
+	case dbc.AttributeDefaultHex:
+		return int(dbcAttDef.ValueHex)
+	case dbc.AttributeDefaultFloat:
+		return int(dbcAttDef.ValueFloat)
+	default:
+		return dbcAttDef.ValueInt
+	}
+}
+
+// getAttributeDefaultFloat returns the numeric default value of an attribute as float64.
+func (i *importer) getAttributeDefaultFloat(dbcAttDef *dbc.AttributeDefault) float64 {
+	switch dbcAttDef.Type {
+	case dbc.AttributeDefaultInt:
+		return float64(dbcAttDef.ValueInt)
+	case dbc.AttributeDefaultHex:
+		return float64(dbcAttDef.ValueHex)
+	default:
+		return dbcAttDef.ValueFloat
+	}
+}
+
 func (i *importer) importAttributes(dbcAtts []*dbc.Attribute, dbcAttDefs []*dbc.AttributeDefault, dbcAttVals []*dbc.AttributeValue) error {
 	dbcAttDefMap := make(map[string]*dbc.AttributeDefault)
 	for _, dbcAttDef := range dbcAttDefs {
@@ -171,14 +197,14 @@ func (i *importer) importAttributes(dbcAtts []*dbc.Attribute, dbcAttDefs []*dbc.
 			att = NewStringAttribute(dbcAtt.Name, dbcAttDef.ValueString)
 
 		case dbc.AttributeInt:
-			intAtt, err := NewIntegerAttribute(dbcAtt.Name, dbcAttDef.ValueInt, dbcAtt.MinInt, dbcAtt.MaxInt)
+			intAtt, err := NewIntegerAttribute(dbcAtt.Name, i.getAttributeDefaultInt(dbcAttDef), dbcAtt.MinInt, dbcAtt.MaxInt)
 			if err != nil {
 				return i.errorf(dbcAtt, err)
 			}
 			att = intAtt
 
 		case dbc.AttributeHex:
-			hexAtt, err := NewIntegerAttribute(dbcAtt.Name, int(dbcAttDef.ValueHex), int(dbcAtt.MinHex), int(dbcAtt.MaxHex))
+			hexAtt, err := NewIntegerAttribute(dbcAtt.Name, i.getAttributeDefaultInt(dbcAttDef), int(dbcAtt.MinHex), int(dbcAtt.MaxHex))
 			if err != nil {
 				return i.errorf(dbcAtt, err)
 			}
@@ -186,7 +212,7 @@ func (i *importer) importAttributes(dbcAtts []*dbc.Attribute, dbcAttDefs []*dbc.
 			att = hexAtt
 
 		case dbc.AttributeFloat:
-			floatAtt, err := NewFloatAttribute(dbcAtt.Name, dbcAttDef.ValueFloat, dbcAtt.MinFloat, dbcAtt.MaxFloat)
+			floatAtt, err := NewFloatAttribute(dbcAtt.Name, i.getAttributeDefaultFloat(dbcAttDef), dbcAtt.MinFloat, dbcAtt.MaxFloat)
 			if err != nil {
 				return i.errorf(dbcAtt, err)
 			}
